@@ -66,7 +66,7 @@ GRID = grid()
 
 
 def budget(tier):
-    return 10000 if tier == "quick" else len(GRID) + 60_000
+    return 10000 if tier == "quick" else len(GRID) + 1_000_000
 
 
 def wall(tier):
@@ -228,9 +228,11 @@ def run(scn) -> RunResult:
                     res.violate(PROP, "never-silently-discarded", f"held-never-released:{site_case}",
                                 f"{proto} send{f} buffer={buf}: parked for sleeping node, wake wrote {woke} then {woke2}")
         finally:
-            res.digest = w.elog.digest()
-            res.vt = w.loop.time()
-            res.steps = w.loop.steps
+            import hashlib
+            res.digest = hashlib.sha256(("".join(getattr(res, "subdigests", [])) + w.elog.digest()).encode()).hexdigest()
+            res.vt += w.loop.time()  # the sub-worlds (batch, concurrent senders) have added theirs already
+            res.steps += w.loop.steps
+            res.faults.update(w.faults)
             w.close()
     nt = [k for k in keys if k[1] != 1 or k[0] == "sleeping"]
     if nt:
@@ -305,6 +307,7 @@ def _concurrent(scn, proto, res):
                                 f"{proto}: send{tuple(f)} buffer={buf} returned normally, {line!r} was never handed to "
                                 f"the transport; outcomes={outcomes} handed={handed}")
         res.ops += len(scn["conc"])
+        res.subdigests = getattr(res, "subdigests", []) + [w.elog.digest()]
         res.faults.update(w.faults)
         res.vt += w.loop.time()
         res.steps += w.loop.steps
@@ -348,6 +351,7 @@ def _batch(scn, proto, res):
                             f"held-then-{'lost' if n == 0 else 'repeated'}",
                             f"{proto}: {line!r} written {n} times over {len(scn['batch']) + 4} wakes; all writes {written}")
         res.ops += len(scn["batch"]) + 4
+        res.subdigests = getattr(res, "subdigests", []) + [w.elog.digest()]
         res.faults.update(w.faults)
         res.vt += w.loop.time()
         res.steps += w.loop.steps
